@@ -15,6 +15,11 @@ type State struct {
 	loop   *loopBase
 	frozen bool
 	hav    bool // some call without a frame havocked the whole heap on a path to this state
+	gbase  *State // state before the last whole-heap havoc: ghost names resolve through it
+}
+
+func isGhostName(name string) bool {
+	return len(name) > 2 && name[1] == ':' && (name[0] == 'G' || name[0] == 'V' || name[0] == 'P')
 }
 
 // loopBase makes a state lazily havocked at a loop head: a name read before being written
@@ -36,7 +41,7 @@ func (x *Exec) newEpochState() *State {
 }
 
 func (s *State) clone() *State {
-	n := &State{x: s.x, heap: make(map[string]string, len(s.heap)+4), epoch: s.epoch, m: s.m, loop: s.loop, hav: s.hav}
+	n := &State{x: s.x, heap: make(map[string]string, len(s.heap)+4), epoch: s.epoch, m: s.m, loop: s.loop, hav: s.hav, gbase: s.gbase}
 	for k, v := range s.heap {
 		n.heap[k] = v
 	}
@@ -50,6 +55,11 @@ func (s *State) Get(name, sort string) string {
 	}
 	s.x.noteArray(name, sort)
 	var t string
+	if s.gbase != nil && isGhostName(name) {
+		t = s.gbase.Get(name, sort)
+		s.heap[name] = t
+		return t
+	}
 	if s.loop != nil {
 		t = s.x.sc.Declare(fmt.Sprintf("%s@loop%d", name, s.loop.li.id), sort)
 		if _, ok := s.loop.li.placeholders[name]; !ok {
@@ -87,11 +97,14 @@ func (s *State) HavocAll(keep []string) {
 			saved[k] = s.Get(k, sort)
 		}
 	}
+	prev := s.clone()
+	prev.frozen = true
 	s.x.epochs++
 	s.epoch = s.x.epochs
 	s.m = nil
 	s.loop = nil
 	s.hav = true
+	s.gbase = prev
 	s.heap = saved
 }
 
